@@ -40,6 +40,8 @@ pub enum Child {
 pub struct RTree {
     pub state: usize,
     pub root_leaf: Option<usize>,
+    /// id of the first listed node: that is the root, whatever its number
+    pub root: i64,
     pub nodes: HashMap<i64, (String, Child, Child)>,
 }
 #[derive(Debug, Clone)]
@@ -160,8 +162,10 @@ impl RVoice {
                 if toks[i] == "{" {
                     i += 1;
                     let mut nodes = HashMap::new();
+                    let mut root: Option<i64> = None;
                     while toks[i] != "}" {
                         let id: i64 = toks[i].parse().unwrap();
+                        root.get_or_insert(id);
                         nodes.insert(
                             id,
                             (toks[i + 1].to_string(), leaf_id(toks[i + 2]).unwrap(), leaf_id(toks[i + 3]).unwrap()),
@@ -169,11 +173,11 @@ impl RVoice {
                         i += 4;
                     }
                     i += 1;
-                    trees.push(RTree { state, root_leaf: None, nodes });
+                    trees.push(RTree { state, root_leaf: None, root: root.unwrap_or(0), nodes });
                 } else {
                     let Some(Child::Leaf(l)) = leaf_id(toks[i]) else { panic!("leaf expected") };
                     i += 1;
-                    trees.push(RTree { state, root_leaf: Some(l), nodes: HashMap::new() });
+                    trees.push(RTree { state, root_leaf: Some(l), root: 0, nodes: HashMap::new() });
                 }
             } else {
                 panic!("unexpected token {}", toks[i]);
@@ -211,7 +215,7 @@ impl RModel {
         let leaf = if let Some(l) = t.root_leaf {
             l
         } else {
-            let mut id = 0i64;
+            let mut id = t.root;
             loop {
                 let (q, no, yes) = &t.nodes[&id];
                 let ans = any_glob(&self.questions[q], label);
@@ -231,7 +235,7 @@ impl RModel {
             out.push((l, vec![]));
             return out;
         }
-        let mut stack: Vec<(i64, Vec<(String, bool)>)> = vec![(0, vec![])];
+        let mut stack: Vec<(i64, Vec<(String, bool)>)> = vec![(t.root, vec![])];
         while let Some((id, path)) = stack.pop() {
             let (q, no, yes) = &t.nodes[&id];
             for (c, a) in [(no, false), (yes, true)] {
